@@ -105,6 +105,13 @@ def collect_constants(trees):
                         cc.pop(n.attr, None)
                 if cc and c.name not in clsc:
                     clsc[c.name] = cc
+    # an attribute name defined by several classes may be overridden along an inheritance chain: `cls.X` is then not a constant of the lexical class
+    owners = {}
+    for cn, cc in clsc.items():
+        for k in cc:
+            owners.setdefault(k, []).append(cn)
+    for cn in list(clsc):
+        clsc[cn] = {k: v for k, v in clsc[cn].items() if len(owners[k]) == 1}
     return modc, clsc
 
 
